@@ -319,9 +319,19 @@ def h5(ctx):
         ev, res = ctx.eval(b)
         dips = [e for e in res.log if e["kind"] == "call" and not e["chain"] and e.get("effect") == "drop_in_place"]
         arms = set()
+        import dnf as D
         for e in dips:
+            hit = False
             for f in ctx.facts_of(ev, e):
                 if f[0] == "discr" and tag(f[1]) == "hload" and f[1][2] == ("kind",) and f[2][0] == "eq":
                     arms.add(ctx.facts.variant_by_discr("object::Kind", f[2][1]))
+                    hit = True
+            if not hit:
+                # one drop_in_place behind a join of the arms (`let (value, in_arena) = match kind { .. }; if let Some(p) = value { drop_in_place(p) }`):
+                # the kinds under which it is reached, from the exact path condition
+                for c in D.block_dnf(ev, res, b, e["bb"]) or []:
+                    for f in c:
+                        if f[0] == "discr" and tag(f[1]) == "hload" and f[1][2] == ("kind",) and f[2][0] == "eq":
+                            arms.add(ctx.facts.variant_by_discr("object::Kind", f[2][1]))
         ok = {"Slot", "Dangling"} <= arms
         yield Ob(key_of("C13-H5", b.path, "every-owning-kind-drops"), ok, "drop_in_place is reached in the arms %s (needed: Slot and Dangling)" % sorted(a for a in arms if a), b.loc())
